@@ -100,7 +100,8 @@ class PersistentMixin(Module):
                 self.persistentData = json.load(f)
             if not isinstance(self.persistentData, dict):
                 raise ValueError('persistent data must be a JSON object')
-        except (FileNotFoundError, ValueError):
+        except (FileNotFoundError, ValueError, RecursionError):
+            # RecursionError: a damaged file may contain deeply nested brackets
             self.persistentData = {}
         result = {}
         for pname, value in self.persistentData.items():
